@@ -1096,3 +1096,142 @@ func directlyWrites(loop *ast.ForStmt, pred func(*ast.BlockStmt) bool) bool {
 	}
 	return pred(shallow)
 }
+
+// ---- C16.R8 the digit writers, folded ----
+
+// AppendInt and AppendUint are, behind the load of the value, pure functions of (value, bit size): they mask, negate,
+// take a fast path for one and two digits, and write pairs of digits from the end of a local buffer through a
+// 16-bit view of it. The part behind the load is folded as a whole (the value bound where the loads leave it, the
+// bit size bound as the opcode's field, little-endian pair tables as selected on such a host) for a systematic
+// family of values of each width and compared with strconv: every power of ten and its neighbours, values whose
+// inner digit groups are zero, the limits of each width, every 8-bit value, and a spread of others.
+func c16r8(rc *core.RC) {
+	p := rc.P
+	var family []uint64
+	add := func(v uint64) { family = append(family, v) }
+	for v := uint64(0); v < 300; v++ {
+		add(v)
+	}
+	pow := uint64(1)
+	for k := 0; k < 20; k++ {
+		for _, d := range []uint64{1, 2, 5, 9} {
+			add(pow*d - 1)
+			add(pow * d)
+			add(pow*d + 1)
+		}
+		if k < 19 {
+			pow *= 10
+		}
+	}
+	for _, v := range []uint64{5000000000, 1700000000123, 10000000000000000000, 100000000, 100000001, 1000000000000, 100000000000000000, 4294967295, 4294967296, 4294967297,
+		65535, 65536, 32767, 32768, 2147483647, 2147483648, 9223372036854775807, 9223372036854775808, 18446744073709551615, 18446744073709551614, 1000000100000001, 99999999, 100000099, 10000000000000099} {
+		add(v)
+	}
+	x := uint64(88172645463325252)
+	for i := 0; i < 1500; i++ { // xorshift: a spread over all magnitudes
+		x ^= x << 13
+		x ^= x >> 7
+		x ^= x << 17
+		add(x >> (uint(i) % 60))
+	}
+	n := 0
+	for _, tg := range []struct {
+		name   string
+		signed bool
+	}{{"AppendInt", true}, {"AppendUint", false}} {
+		fd := p.Func("encoder", tg.name)
+		key := "encoder." + tg.name + "/agrees-with-strconv"
+		if fd == nil || fd.Body == nil {
+			rc.Unknown(key, token.NoPos, "digit writer not found")
+			continue
+		}
+		n++
+		rc.Touch(p.FuncName(fd))
+		info := p.Info(fd)
+		// the loads: a switch on the opcode's bit size that assigns the value variable
+		start := -1
+		var valueVar, bitField types.Object
+		for i, st := range fd.Body.List {
+			sw, ok := st.(*ast.SwitchStmt)
+			if !ok || sw.Tag == nil {
+				continue
+			}
+			sel, isSel := core.Unparen(sw.Tag).(*ast.SelectorExpr)
+			if !isSel {
+				continue
+			}
+			bitField = info.Uses[sel.Sel]
+			ast.Inspect(sw.Body, func(m ast.Node) bool {
+				if as, isAs := m.(*ast.AssignStmt); isAs && len(as.Lhs) == 1 {
+					valueVar = core.ObjOf(info, as.Lhs[0])
+				}
+				return true
+			})
+			start = i + 1
+			break
+		}
+		var outParam types.Object
+		for _, f := range fd.Type.Params.List {
+			for _, nm := range f.Names {
+				if o := info.Defs[nm]; o != nil && o.Type().String() == "[]byte" {
+					outParam = o
+				}
+			}
+		}
+		endian := p.Pkg("encoder").Types.Scope().Lookup("endianness")
+		if start < 0 || valueVar == nil || bitField == nil || outParam == nil || endian == nil {
+			rc.Unknown(key, fd.Pos(), "the shape load-switch / value variable / output parameter was not recognised")
+			continue
+		}
+		bp := &core.BytePred{P: p, Strings: map[types.Object][]byte{outParam: {}}, Fields: map[types.Object]int64{}, Globals: map[types.Object]int64{endian: 0}}
+		var bad []string
+		count := 0
+		undecided := ""
+		for _, bits := range []uint{8, 16, 32, 64} {
+			mask := ^uint64(0)
+			if bits < 64 {
+				mask = 1<<bits - 1
+			}
+			seen := map[uint64]bool{}
+			for _, raw := range family {
+				for _, v := range []uint64{raw & mask, (-raw) & mask} {
+					if seen[v] {
+						continue
+					}
+					seen[v] = true
+					bp.Steps = 0
+					bp.ResultBytes = nil
+					bp.Fields[bitField] = int64(bits)
+					_, _, done, ok := bp.ExecList(info, fd.Body.List[start:], core.BindAll(map[types.Object]int64{valueVar: int64(v)}))
+					if !ok || !done || bp.ResultBytes == nil {
+						undecided = fmt.Sprintf("%d (%d bits)", v, bits)
+						break
+					}
+					count++
+					want := strconv.FormatUint(v, 10)
+					if tg.signed {
+						sv := int64(v << (64 - bits)) >> (64 - bits)
+						want = strconv.FormatInt(sv, 10)
+					}
+					if got := string(bp.ResultBytes); got != want && len(bad) < 6 {
+						bad = append(bad, fmt.Sprintf("%s written as %s (%d bits)", want, got, bits))
+					}
+				}
+				if undecided != "" {
+					break
+				}
+			}
+			if undecided != "" {
+				break
+			}
+		}
+		if undecided != "" {
+			rc.Unknown(key, fd.Pos(), "the digit writer could not be folded for %s", undecided)
+			continue
+		}
+		rc.Check(len(bad) == 0, key, fd.Pos(), "%s, folded behind the load for %d values of 8, 16, 32 and 64 bits, writes what strconv writes%s", tg.name, count, map[bool]string{true: "", false: ": " + strings.Join(bad, "; ")}[len(bad) == 0])
+	}
+	if n < 2 {
+		rc.Unknown("encoder/digit-writers", token.NoPos, "found %d of AppendInt/AppendUint", n)
+	}
+}
